@@ -3,6 +3,7 @@
 package checks
 
 import (
+	"encoding/json"
 	"fmt"
 	"time"
 
@@ -174,6 +175,9 @@ func C15(tier string) int {
 	}
 	run := ev.NewRun("C15", tier, "exploration")
 	results, err := runConcParent("C15", tier, len(jobs))
+	if err == nil {
+		concExtraCoverage = map[string]any{"batch_sizes_by_processors": c15BatchSizes(run)}
+	}
 	run.Assumptions = []string{
 		"scheduling points: every Mutex.Lock / sync.Map operation of services/locker/syncmap (overlay shim) and every storage operation; a thread at Lock is enabled iff the mutex is free; 'no enabled thread while some thread is unfinished' is a deadlock",
 		"blocking outside the shim is caught by a per-step watchdog and classified by free-running the execution (uncontrolled executions are reported, never alarmed unless they do not finish)",
@@ -184,4 +188,23 @@ func C15(tier string) int {
 
 func init() {
 	Registry["C15"] = C15
+	prev := Replayers["C15"] // set by c04.go's init, which runs first (file name order)
+	Replayers["C15"] = func(raw json.RawMessage) int {
+		var rp struct {
+			BatchSizes bool `json:"batch_sizes"`
+		}
+		if json.Unmarshal(raw, &rp) == nil && rp.BatchSizes {
+			run := ev.NewRun("C15", "replay", "exploration")
+			fmt.Printf("  %v\n", c15BatchSizes(run))
+			for _, v := range run.Violations() {
+				fmt.Println("  VIOLATED:", v.What)
+			}
+			if len(run.Violations()) > 0 {
+				return 1
+			}
+			fmt.Println("  no violation on replay")
+			return 0
+		}
+		return prev(raw)
+	}
 }
